@@ -99,7 +99,7 @@ Proof.
     change (mem_item j (s_inputs st1) = false) in Hm.
     destruct (cv_reads _ C j v Hl Hm) as (f & ds & A & B).
     exists f, ds. split; [exact A|]. eapply Forall_impl; [|exact B]. intros x Hx.
-    destruct x as [m|c|r'|c r']; simpl in *; try exact Hx.
+    destruct x as [m|c|r'|c r'|]; simpl in *; try exact Hx.
     apply Hre. split; [exact Hx|]. simpl.
     assert (Hj : has st1 j) by (unfold has; congruence).
     assert (Hnr : ~ In j readers) by (intros Hin; exact (Hgone j Hin Hj)).
@@ -166,7 +166,7 @@ Proof.
               forall y, In y ds -> match y with RAttr r' | RName _ r' => r' <> r | _ => True end).
   { intros j wv f ds Hl Hm Hown Hcov y Hy.
     pose proof (proj1 (Forall_forall _ _) Hcov y Hy) as Hc.
-    destruct y as [m|c|r'|c r']; try exact I.
+    destruct y as [m|c|r'|c r'|]; try exact I.
     - simpl in Hc. intros ->. exact (Hno3 j Hc).
     - intros ->. destruct (rname_own _ _ _ _ _ _ _ _ Hown Hy) as (cl & Elc & Hb).
       unfold defs_of in Elc; simpl in Elc.
@@ -191,7 +191,7 @@ Proof.
   { intros j wv f ds Hl Hm Hown Hcov. apply Forall_forall. intros y Hy.
     pose proof (Hnoread j wv f ds Hl Hm Hown Hcov y Hy) as Hn.
     pose proof (proj1 (Forall_forall _ _) Hcov y Hy) as Hc.
-    destruct y as [m|c|r'|c r']; simpl in *; auto. destruct Hc as (_ & Hh). repeat split; auto. }
+    destruct y as [m|c|r'|c r'|]; simpl in *; auto. destruct Hc as (_ & Hh). repeat split; auto. }
   assert (AG : Agree st3 (defs_of st4) (input_data st4) PC PR PI).
   { constructor.
     - intros c _. reflexivity.
